@@ -108,6 +108,50 @@ def gen_shape(rng, lo=0.5, hi=4.0):
                 roll=rng.choice([0.0, rng.uniform(-math.pi, math.pi)]))
 
 
+def long_wall(rng, c, p, d, t=None):
+    """a long, tall, thin vertical wall across the line of sight c->p whose CENTRE is farther than the visible
+    distance from the camera (1-2.5x), while the part of it crossing the line of sight is in range"""
+    w = sub(p, c)
+    hn = math.hypot(w[0], w[1])
+    if hn < 0.3 * norm(w) or norm(w) < 2.0:
+        return None          # too steep / too close: a vertical wall would not be a clean screen
+    e = [-w[1] / hn, w[0] / hn, 0.0]
+    t = rng.uniform(0.3, 0.7) if t is None else t
+    sgn = rng.choice([-1, 1])
+    sft = sgn * d * rng.uniform(1.05, 2.5)
+    centre = [c[i] + t * w[i] + sft * e[i] for i in range(3)]
+    lw = 2 * abs(sft) + 2 * rng.uniform(3.0, 8.0)
+    return dict(shape="box", dims=[lw, 0.6, rng.uniform(30, 60)], yaw=math.atan2(e[1], e[0]), pitch=0.0, roll=0.0,
+                pos=centre, occluding=True, wall=True)
+
+
+def wall_hides(o, cam, tc, rho, M=0.02):
+    """certificate: every ray from cam towards the ball B(tc, rho) crosses the wall's mid-plane inside its rectangle,
+    and leaves the wall before reaching the ball"""
+    lw, th, hh = o["dims"]
+    e = [math.cos(o["yaw"]), math.sin(o["yaw"]), 0.0]
+    n = [-math.sin(o["yaw"]), math.cos(o["yaw"]), 0.0]
+    w = sub(tc, cam)
+    dist = norm(w)
+    if dist <= rho * 1.001:
+        return False
+    u = [x / dist for x in w]
+    alpha = math.asin(min(1.0, rho / dist))
+    un = sum(a * b for a, b in zip(u, n))
+    if abs(un) < 0.3:
+        return False
+    D = sum((o["pos"][i] - cam[i]) * n[i] for i in range(3)) / un
+    theta = math.acos(min(1.0, abs(un)))
+    if D <= 0 or theta + alpha > 1.3 or D * abs(un) < th / 2 + 0.05:
+        return False
+    hit = [cam[i] + D * u[i] for i in range(3)]
+    a = sum((hit[i] - o["pos"][i]) * e[i] for i in range(3))
+    b = hit[2] - o["pos"][2]
+    rdisc = D * math.sin(alpha) / math.cos(theta + alpha)
+    far = (D * abs(un) + th / 2) / math.cos(theta + alpha)
+    return abs(a) + rdisc < lw / 2 - 0.05 and abs(b) + rdisc < hh / 2 - 0.05 and far < dist - rho - M
+
+
 def gen_point_case(rng, idx):
     viewer = gen_viewer(rng)
     c, R = camera(viewer)
@@ -141,6 +185,10 @@ def gen_point_case(rng, idx):
             o["pos"] = [c[i] + rng.uniform(-d, d) for i in range(3)]
         o["occluding"] = True
         occ.append(o)
+    if rng.random() < 0.2 and len(occ) < 3:
+        wl = long_wall(rng, c, p, d)
+        if wl:
+            occ.append(wl)
     return dict(id=f"pt{idx}", viewer=viewer, target=dict(kind=rng.choice(["vector", "vector", "point", "opoint"]), pos=p), occ=occ,
                 place=dict(az=az, alt=alt, dist=dist))
 
@@ -150,7 +198,14 @@ def gen_object_case(rng, idx):
     viewer = gen_viewer(rng, allow_point=(rng.random() < 0.3), density=density)
     c, R = camera(viewer)
     h, v, d = viewer["va"][0], viewer["va"][1], viewer["d"]
-    mode = rng.choice(["inside", "inside", "rear", "hidden", "hidden", "behind", "far", "edge", "straddle", "vertical"])
+    mode = rng.choice(["inside", "inside", "rear", "hidden", "hidden", "hidden", "behind", "far", "edge", "edge", "edge", "straddle", "vertical", "vertical"])
+    if mode in ("edge", "vertical") and rng.random() < 0.7:
+        # narrow cone, camera offset and full 3D rotation: errors in composing offset and orientation show at the cone boundary
+        viewer.update(cls="Object", cam=[rng.uniform(-3, 3) for _ in range(3)], dims=[1.0, 1.0, 1.0],
+                      yaw=rng.uniform(-math.pi, math.pi), pitch=rng.uniform(-1.3, 1.3), roll=rng.uniform(-math.pi, math.pi),
+                      va=[math.radians(rng.uniform(15, 70)), math.radians(rng.uniform(15, 70))], hk="narrow", vk="narrow")
+        c, R = camera(viewer)
+        h, v, d = viewer["va"][0], viewer["va"][1], viewer["d"]
     if rng.random() < 0.45:
         r_min = rng.uniform(0.6, 1.5)
         r_max = r_min + rng.uniform(0.6, 1.5)
@@ -179,9 +234,10 @@ def gen_object_case(rng, idx):
         az, alt = rng.uniform(-h / 2, h / 2) * 0.8, rng.uniform(-v / 2, v / 2) * 0.7
         dist = d + size * rng.uniform(0.5, 3.0) + rng.uniform(0, 5)
     elif mode == "edge":
-        az = rng.choice([-1, 1]) * (h / 2) * rng.uniform(0.8, 1.3)
-        alt = rng.uniform(-v / 2, v / 2) * 0.5
-        dist = rng.uniform(max(3 * size, 0.2 * d), max(3.2 * size, 0.8 * d))
+        dist = rng.uniform(max(4 * size, 0.2 * d), max(4.2 * size, 0.8 * d))
+        ar = math.asin(min(1.0, 0.9 * size * 1.8 / dist))       # roughly the target's angular radius
+        az = rng.choice([-1, 1]) * (h / 2 + rng.choice([-1, 1]) * (ar + rng.uniform(0.03, 0.25)))
+        alt = rng.uniform(-v / 2, v / 2) * 0.4
     elif mode == "vertical":
         az = rng.uniform(-h / 2, h / 2) * 0.5
         alt = rng.choice([-1, 1]) * min(1.5, (v / 2) * rng.uniform(0.8, 1.6))
@@ -195,7 +251,11 @@ def gen_object_case(rng, idx):
     tgt["pos"] = add(c, mv(R, [dist * x for x in local_dir(az, alt)]))
     tgt["occluding"] = True
     occ = []
-    if mode == "hidden":
+    if mode == "hidden" and rng.random() < 0.5:
+        wl = long_wall(rng, c, tgt["pos"], d, t=rng.uniform(0.3, 0.55))
+        if wl:
+            occ.append(wl)
+    elif mode == "hidden":
         # a ball-shaped screen between viewer and target, large enough to hide the whole target
         t = rng.uniform(0.35, 0.6)
         dw = dist * t
@@ -394,10 +454,16 @@ def check_object(c, case, r, exe):
     for i, (o, f) in enumerate(zip(case["occ"], r["occ"])):
         wo = sub(f["ball_c"], cam)
         do = norm(wo)
-        if f["ball_r"] <= 0 or do <= f["rho"] * 1.001 or dist <= rho * 1.001:
+        if o.get("wall"):
+            hidden = wall_hides(o, cam, T["centre"], rho)
+            if hidden:
+                c.hist("object:hidden-by-long-wall" + (":centre-beyond-visible-distance" if do > d else ""))
+        elif f["ball_r"] <= 0 or do <= f["rho"] * 1.001 or dist <= rho * 1.001:
             continue
-        cover = math.asin(min(1.0, f["ball_r"] / do)) - (angle(wo, w) + math.asin(min(1.0, rho / dist)))
-        if cover > M and do + f["rho"] < dist - rho - M:
+        else:
+            cover = math.asin(min(1.0, f["ball_r"] / do)) - (angle(wo, w) + math.asin(min(1.0, rho / dist)))
+            hidden = cover > M and do + f["rho"] < dist - rho - M
+        if hidden:
             c.hist("object:hidden-by-screen")
             c.count((case["id"], "hidden", i, case["viewer"], case["target"]), nontrivial=True)
             for mask in range(1 << n):
